@@ -267,6 +267,12 @@ def hostile_rsp(rng, head):
     r = rng.random()
     if r < 0.25:
         return "good", good
+    if r < 0.45:
+        # the response to the very command in flight with its status but fewer / other arguments than it
+        # needs (MEASURE: frequency and level; the others: their echoed arguments)
+        return rng.choice([("status-only", b"RSP " + verb + b" 0\0"), ("status-only", b"RSP " + verb + b" 0"),
+                           ("status-only", b"RSP " + verb + b" 0 \0"), ("args-short", b"RSP " + verb + b" 0 1\0"),
+                           ("args-garbage", b"RSP " + verb + b" 0 x y\0"), ("args-garbage", b"RSP " + verb + b" 0 \xff\xfe\0")])
     c = [
         ("no-space", b"RSP " + verb + b"\0"), ("no-space", b"RSP " + verb), ("no-status", b"RSP " + verb + b" \0"),
         ("no-status", b"RSP " + verb + b" abc\0"), ("bare", b"RSP \0"), ("bare", b"RSP"), ("bare", b"RSP "), ("empty", b"\0"),
